@@ -526,6 +526,11 @@ impl Tcp {
             .clone()
     }
 
+    /// The address pairs of all stream sockets of this host.
+    pub(crate) fn stream_pairs(&self) -> Vec<SocketPair> {
+        self.sockets.keys().copied().collect()
+    }
+
     pub(crate) fn stream_count(&self) -> usize {
         self.sockets.len()
     }
